@@ -485,9 +485,17 @@ def run(tier, seed):
     neg_rej = {}
     for ti_, kind, bad in negs:
         if verdicts[ti_] == "ok":
+            if kind == "extra-gates":
+                # the appended gates (T, H on wire 1) leave a state that is an eigenvector of H.T on wire 1 unchanged up to a phase:
+                # then the control corrupts nothing (decided numerically on the emitted circuits)
+                good_b = bad["b"][:-2]
+                sa, sb = tmpl.bridge_state(good_b, bad["n"], bad["M"]), tmpl.bridge_state(bad["b"], bad["n"], bad["M"])
+                if tmpl.equal_up_to_phase_vec(sb, sa, 1e-12) and (bad["rel"] == "phase" or np.allclose(sa, sb, atol=1e-12)):
+                    neg_rej["neutral(not a corruption)"] = neg_rej.get("neutral(not a corruption)", 0) + 1
+                    continue
             raise lib.MachineryError(f"negative control ({kind}) accepted by TLC")
         neg_rej[kind] = neg_rej.get(kind, 0) + 1
-    if sum(neg_rej.values()) < 3:
+    if sum(v for k, v in neg_rej.items() if not k.startswith("neutral")) < 3:
         raise lib.MachineryError(f"too few negative controls: {neg_rej}")
 
     # ---- verdicts
@@ -576,7 +584,7 @@ def run(tier, seed):
                    "validated against the documented state (identical emissions of decomposition() and a rule count once)",
            "samples": samples, "exhaustive": False, "targets_generated_by_tlc": len(tc), "ring_unitaries_generated_by_tlc": len(c2) + len(c1),
            "template_instances": len(inst), "exact_by_tlc": n_exact, "bridged_float": n_bridge, "device_primitive_states": n_dev,
-           "per_template_decompositions": per_tmpl, "negative_controls_rejected": sum(neg_rej.values()), "negative_controls": neg_rej,
+           "per_template_decompositions": per_tmpl, "negative_controls_rejected": sum(v for k, v in neg_rej.items() if not k.startswith("neutral")), "negative_controls": neg_rej,
            "wall_split_s": timing, "ring_levels": r["levels"], **stats}
     return CheckResult(coverage=cov, violations=viol, assumptions=[
         "documented states are the docstring definitions transcribed in Trace_StatePrep.tla; gate semantics = Gates.tla",
